@@ -24,12 +24,19 @@ func main() {
 	conc := flag.Int("conc", 0, "run ops on this many goroutines (C17)")
 	procs := flag.Int("procs", 0, "GOMAXPROCS")
 	genOnly := flag.Bool("genonly", false, "print op lines only")
+	search := flag.Int("search", 0, "failing-input search: compare the library with a fast in-harness mirror on this many inputs and print the ops that differ (only after a tie has broken)")
 	flag.Parse()
 	if *procs > 0 {
 		runtime.GOMAXPROCS(*procs)
 	}
 	initCurve()
 	initConstGuard()
+	if *search > 0 {
+		for _, op := range searchOps(*prop, *seed, *search, 8) {
+			fmt.Println(op)
+		}
+		return
+	}
 	var ops []string
 	if *replay != "" {
 		f, err := os.Open(*replay)
